@@ -64,6 +64,27 @@ What this file does on every run
     prepend, a Tape / Builder, graph attributes, every dict spelling of an attribute edit): the model's spelled call
     tree `callTreeX` incl. what every instrumented call returns, the receiver of Graph.sort, values returned by the
     public calls.  An op outside `K_INSTANTIATED` is reported as a broken correspondence that names it.
+* round 5 (the code as it is since repo commit 1a1144b: every wrapper looks at `journal._active`):
+  - the model has the CHECKED code everywhere (`dispatchG` / `runBlockG` / `runFlatG` / `callCapturedG`); a probe of the real
+    wrappers (`guarded_code`) selects the variant that `journal.run` / `journal.kernel` / `journal.flat` execute, so every
+    stream compares the real code with the model of the real code; C20_table_wrappers_active (every wrapper installed in
+    the class table of a properly nested history belongs to an active journal; checked = unchecked state for state) carries
+    the run theorems over by proof.  The invariant is evaluated on the real objects after every item of every flat history
+    (decoded class table x real `_active` flags; oracle `*/stale-wrapper-installed` on properly nested words) and compared
+    with the model's (`table_active`);
+  - IMPROPERLY nested flat histories with operations: entries are compared too (the stale wrappers forward in the model
+    as in the code); deterministic family `flat-family` (crossed exits, operations of every wrapper kind behind stale
+    wrappers, the stale journal entered again); whether the entries still are "the calls completed while entered" is an
+    observation (histogram), the theorems there are C20_inactive_journal_silent / C20_stale_wrapper_forwards;
+  - the `_active` check of every slot's real wrapper code object around a stub journal with `_active = False` (forwards:
+    original once, no details, no record; result / None; exception propagates) vs the flags computed from
+    `runImplGuarded` (C20_wrapper_guard);
+  - permanent families with floors: `empty-owner` (every container operation on a graph / function with ZERO nodes inside
+    1-2 journals: seeded C20-q1), `journal-reuse` + flat forms (a Journal entered, exited and entered again in another
+    nesting context: seeded C20-q2);
+  - `RetTracer`: what every outermost PUBLIC call of the kernel alphabet (kernel_ops.API_TABLE members mapped to a kernel
+    op, instrumented or not: initializers.pop / popitem / setdefault, attributes.*, Tape.op, Builder.<Op>, convenience.*)
+    hands back - value or exception type - with vs without journals (oracle `kernel/transparent-public-result:*`).
 * coverage floor: two deterministic histories call all 43 instrumented operations inside journals;
   the run fails (exit 2) if any slot was exercised fewer than FLOOR times.
 """
@@ -134,6 +155,27 @@ THEOREMS = [
     "IrVerif.Journal.C20_captured_after_exit_guarded",
     "IrVerif.Journal.C20_transparent_kernel_spelled",
     "IrVerif.Journal.C20_kernel_plain_spelled",
+    # round 5: the code as it is now (every wrapper checks journal._active)
+    "IrVerif.Journal.C20_table_wrappers_active",
+    "IrVerif.Journal.C20_flat_guarded",
+    "IrVerif.Journal.C20_block_guarded",
+    "IrVerif.Journal.C20_dispatch_guarded",
+    "IrVerif.Journal.C20_transparent_guarded",
+    "IrVerif.Journal.C20_transparent_from_start_guarded",
+    "IrVerif.Journal.C20_entries_guarded",
+    "IrVerif.Journal.C20_entries_active_guarded",
+    "IrVerif.Journal.C20_restore_guarded",
+    "IrVerif.Journal.C20_restore_flat_guarded",
+    "IrVerif.Journal.C20_no_strong_ref_run_guarded",
+    "IrVerif.Journal.C20_transparent_kernel_guarded",
+    "IrVerif.Journal.C20_kernel_plain_guarded",
+    "IrVerif.Journal.C20_captured_guarded_full",
+    "IrVerif.Journal.C20_inactive_journal_silent",
+    "IrVerif.Journal.C20_inactive_journal_silent_needs_guard",
+    "IrVerif.Journal.C20_stale_wrapper_forwards",
+    "IrVerif.Journal.C20_exit_restores_own_snapshot_guarded",
+    "IrVerif.Journal.C20_improper_nesting_general_guarded",
+    "IrVerif.Journal.C20_wrapper_guard",
 ]
 # "entries keep no strong reference": since round 3 the model represents the entry as the dataclass is (eight
 # fields, `EntryFull`; object-valued fields would be `FVal.inst`) and every wrapper's details expression as a
@@ -154,9 +196,12 @@ ASSUMPTIONS = [
     "reported in the distribution, not a failure); taken inside and called after exit it recorded into the journal that "
     "was left (C20_captured_inside_records_after_exit: finding D471, fixed in /repo by commit 1a1144b - the wrappers now "
     "forward when journal._active is false: C20_captured_after_exit_guarded; the oracle `captured-inside/records-after-exit:*` "
-    "stays).  The run theorems are stated for the wrappers WITHOUT that check (runImpl); C20_guard_noop_when_active shows "
-    "the checked wrapper is the same function whenever its journals are active; that every wrapper reachable through the "
-    "class table of a properly nested history has an active journal is not proved (it is what the flat / block streams compare)",
+    "stays).  Since round 5 the model has the CHECKED code everywhere (dispatchG / runBlockG / runFlatG / callCapturedG: the "
+    "wrappers of the call and of every nested call look at journal._active); C20_table_wrappers_active proves that along a "
+    "properly nested history every wrapper installed in the class table belongs to an active journal and that the checked "
+    "code is state-for-state the unchecked one, so C20_transparent_guarded / C20_entries_guarded / C20_restore_guarded / "
+    "C20_transparent_kernel_guarded are theorems about the code as it is; a probe of the real wrappers "
+    "(stale_wrapper_records) selects which of the two model variants every stream is compared with",
     "after exit the patched properties are NEW property objects with the original fget/fset/fdel/doc (restore_ir_classes "
     "builds property(fget, fset)); `is`-identity of the property object itself is not restored and not claimed "
     "(nothing in onnx_ir depends on it); identity of plain methods is restored and checked",
@@ -173,7 +218,8 @@ ASSUMPTIONS = [
     "Node.append / prepend, Attr objects built for it, `|=`) and the numbering of Function / Attr objects are supplied by the "
     "harness (the kernel op does not carry them); a public call returns what its instrumented root call handed back when it "
     "IS that call (isDirect), None otherwise (e.g. initializers.pop(key) returns the value without an instrumented call: "
-    "not modelled); a non-Attr attribute argument, Value(producer, index=...) and Node(outputs=[initializer]) (C01 finding "
+    "not in the model; since round 5 what EVERY outermost public call of the alphabet hands back - value or exception type - is "
+    "compared with vs without journals on the real code, oracle kernel/transparent-public-result); a non-Attr attribute argument, Value(producer, index=...) and Node(outputs=[initializer]) (C01 finding "
     "D12b) are not in the kernel stream; Graph.remove / Graph.sort sub-call order is address-dependent and compared as "
     "multisets (also the entries of histories containing them)",
     "generators: a journal held open by a generator is closed by GeneratorExit / gc (an exit by exception: C20_restore); "
@@ -396,6 +442,9 @@ class Tracer:
         # ... and the calls where evaluating it has an effect (consumes a one-shot iterable argument,
         # runs a user repr with a side effect): EFFECTS[0] moves during the evaluation
         self.details_effect: list = []
+        # ranks (among the start events) of container calls whose owner - a Graph / Function - holds ZERO nodes at the
+        # moment of the call (an empty Graph is falsy: Sequence[Node])
+        self.empty_owner: set = set()
 
     def end(self) -> None:
         self.active = False
@@ -419,9 +468,15 @@ class Tracer:
         slf = sys._getframe(1).f_locals.get("self")
         i = self.reg.idx(slf)
         tattr = SLOT_ATTR[k]
-        if tattr is not None:
-            self.owner[i] = self.reg.idx(getattr(slf, tattr))
         rank = self.nstart
+        if tattr is not None:
+            own = getattr(slf, tattr)
+            self.owner[i] = self.reg.idx(own)
+            try:
+                if isinstance(own, (self.R.core.Graph, self.R.core.Function)) and len(own) == 0:
+                    self.empty_owner.add(rank)
+            except Exception:  # noqa: BLE001 - real code called from a monitoring callback must not leak into the monitored call
+                pass
         self.nstart += 1
         self.stack.append((k, i, rank, slf if self.probe else None))
         self.events.append(["start", k, i])
@@ -808,6 +863,9 @@ def exec_op(env: Env, op: dict):
         return None
     if o == "f_set":
         setattr(env.functions[op["f"]], op["field"], op["s"])
+        return None
+    if o == "fa_set":  # function.attributes[key] = attr (Attributes.__setitem__ recorded on the function)
+        env.functions[op["f"]].attributes[op["key"]] = env.attrs[op["a"]]
         return None
     if o == "v_type":
         env.values[op["v"]].type = None if op["dtype"] is None else ir.TensorType(ir.DataType(op["dtype"]))
@@ -1232,6 +1290,7 @@ class Runner:
             self.init_nonnone = self.tr.init_nonnone
             self.details_fail = sorted(self.tr.details_fail)
             self.details_effect = sorted(self.tr.details_effect)
+            self.empty_owner = set(self.tr.empty_owner)
             self.tr.end()
 
     def blocks(self, blocks: list) -> None:
@@ -1396,6 +1455,23 @@ def op_by_seq(blocks: list, seq: int) -> dict:
     return flat[seq]
 
 
+def reused_elsewhere(blocks: list) -> bool:
+    """Some journal object is entered at two places of the history with different enclosing (active) journals."""
+    seen: dict = {}
+
+    def walk(bs, active):
+        for b in bs:
+            if b["t"] == "with":
+                if b["j"] not in active:
+                    seen.setdefault(b["j"], set()).add(active)
+                    walk(b["body"], active + (b["j"],))
+            elif b["t"] == "try":
+                walk(b["body"], active)
+
+    walk(blocks, ())
+    return any(len(v) > 1 for v in seen.values())
+
+
 def has_reentry(blocks: list, active: tuple = ()) -> bool:
     for b in blocks:
         if b["t"] == "with":
@@ -1443,9 +1519,21 @@ def run_case(ctx, case: dict, stream: str) -> tuple:
     )
     for o in jr.outcomes:
         ctx.count(f"outcome={o[1]}")
+    rank, depth_now = 0, 0
     for ev in jr.events:
         if ev[0] == "start":
             ctx.count("slot=" + R.KEYS[ev[1]])
+            if rank in jr.empty_owner and depth_now > 0:
+                # a container operation inside a journal whose owner graph / function holds no node (seeded C20-q1)
+                ctx.count("empty-owner-op=" + R.KEYS[ev[1]])
+            rank += 1
+        elif ev[0] == "enter":
+            depth_now += 1
+        elif ev[0] == "exit":
+            depth_now -= 1
+    if reused_elsewhere(case["blocks"]):
+        # a Journal object entered, exited, and entered again under ANOTHER set of enclosing journals (seeded C20-q2)
+        ctx.count("journal-reused-in-another-nesting-context")
     if jr.enter_refused:
         ctx.count("enter-refused", jr.enter_refused)
     sig = stream
@@ -1538,7 +1626,7 @@ def run_case(ctx, case: dict, stream: str) -> tuple:
     raw_p = forest([e for e in plain.events if e[0] in ("start", "finish")])
     raw_j = forest([e for e in jr.events if e[0] in ("start", "finish")])
     hash_order = (not reentry) and raw_p != raw_j and not opaque  # Graph.remove iterated its frozenset differently
-    req = {"m": "journal.run", "fuel": FUEL, "nj": case["nj"],
+    req = {"m": "journal.run", "fuel": FUEL, "nj": case["nj"], "guarded": guarded_code(),
            "owner": sorted([a, b] for a, b in src.owner.items()),
            "block": lean_blocks(case["blocks"], src, [0])}
     entries_real = []
@@ -1804,7 +1892,7 @@ def details_stream(ctx) -> None:
             ctx.fail("bad-repr/restore-final", "classes not as before after a history whose details raise", {"case": case, "left": left[:6]})
         for f in jr.restore_failures:
             ctx.fail("bad-repr/restore", "class attributes not restored after leaving `with journal`", {"case": case, **f})
-        reqs.append({"m": "journal.run", "fuel": FUEL, "nj": case["nj"], "owner": sorted([a, b] for a, b in pr.owner.items()),
+        reqs.append({"m": "journal.run", "fuel": FUEL, "nj": case["nj"], "guarded": guarded_code(), "owner": sorted([a, b] for a, b in pr.owner.items()),
                      "block": lean_blocks(case["blocks"], pr, [0]), "details_fail": pr.details_fail,
                      "details_effect": pr.details_effect})
         seq, n = [], 0  # order of: original bodies starting (their rank) and side effects of details ("m")
@@ -1886,6 +1974,102 @@ def coverage_case() -> dict:
     return {"nj": 2, "blocks": [{"t": "with", "j": 0, "body": [{"t": "with", "j": 1, "body": ops}]}]}
 
 
+EMPTY_OWNER_SLOTS = ["_GraphIO.append", "_GraphIO.extend", "_GraphIO.insert", "_GraphIO.pop", "_GraphIO.remove", "_GraphIO.clear",
+                     "_GraphIO.__setitem__", "GraphInitializers.__setitem__", "GraphInitializers.__delitem__", "Attributes.__setitem__"]
+REUSE_FLOOR = 6
+
+
+def empty_owner_cases() -> list:
+    """Permanent family (seeded C20-q1): every instrumented container operation on a graph / function that holds ZERO
+    nodes (an empty Graph / Function is falsy), inside 1 and 2 journals - incl. the extend_io / set_initializer calls that
+    Graph.__init__ itself makes - followed by the same operations once the graph has a node."""
+    def O(**kw):
+        return {"t": "try", "body": [{"t": "op", "op": kw}]}
+
+    def container_ops(g, f):
+        return [
+            O(op="io_append", g=g, which="inputs", v=1), O(op="io_extend", g=g, which="outputs", vs=[2], gen=True),
+            O(op="io_insert", g=g, which="inputs", i=0, v=2), O(op="io_setitem", g=g, which="inputs", i=0, v=3),
+            O(op="io_pop", g=g, which="inputs", i=None), O(op="io_remove", g=g, which="inputs", v=3),
+            O(op="io_append", g=g, which="outputs", v=1), O(op="io_clear", g=g, which="outputs"),
+            O(op="init_set", g=g, key="w", v=4), O(op="init_del", g=g, key="w"), O(op="init_register", g=g, v=4),
+            O(op="fa_set", f=f, key="k", a=0),
+        ]
+
+    pre = [O(op="value", name="x"), O(op="value", name="y"), O(op="value", name="z"), O(op="value", name="u"),
+           O(op="tensor", data=[1, 2], name="w"), O(op="value", name="w", const=0), O(op="attr", kind="int", name="k", val=1)]
+    body = ([O(op="graph", inputs=[0], outputs=[1], nodes=[], inits=[], name="empty"),           # Graph.__init__ -> extend_io x2 on an empty graph
+             O(op="graph", inputs=[], outputs=[], nodes=[], name="fg"), O(op="function", domain="d", name="f", g=1)]
+            + container_ops(0, 0)
+            + [O(op="node", op_type="Relu", inputs=[0]), O(op="g_append", g=0, n=0),
+               O(op="node", op_type="Relu", inputs=[0]), O(op="g_append", g=0, n=1, fn=True)]
+            + container_ops(0, 0))
+    cases = []
+    for nest in (1, 2):
+        inner = body
+        for j in reversed(range(nest)):
+            inner = [{"t": "with", "j": j, "body": inner}]
+        cases.append({"nj": 2, "blocks": pre + inner})
+    # the journal entered when the graph already exists and is still empty
+    cases.append({"nj": 2, "blocks": pre + body[:3] + [{"t": "with", "j": 1, "body": container_ops(0, 0)}]})
+    return cases
+
+
+def reuse_cases() -> list:
+    """Permanent family (seeded C20-q2): a Journal object is entered, exited, and entered again in ANOTHER nesting context
+    (alone, then inside another active journal; under j0, then under j2; inner / outer roles swapped; first use left by an
+    exception), with instrumented operations of every wrapper kind inside every block."""
+    def O(**kw):
+        return {"t": "op", "op": kw}
+
+    def ops(tag, g, n0, v0):
+        # constructor, setter, method with nested calls, container method, one rejected call
+        return [O(op="value", name=f"x{tag}"), O(op="node", op_type="Relu", inputs=[v0]), O(op="g_append", g=g, n=n0),
+                O(op="n_set", n=n0, field="name", s=f"n{tag}"), O(op="io_append", g=g, which="outputs", v=v0),
+                {"t": "try", "body": [O(op="g_append", g=g, n=n0), O(op="g_remove", g=g, ns=[n0], single=True), O(op="g_remove", g=g, ns=[n0], single=True)]}]
+
+    def W(j, body):
+        return {"t": "with", "j": j, "body": body}
+
+    pre = [O(op="value", name="in"), O(op="graph", inputs=[0], outputs=[], nodes=[], name="g")]
+    # value / node indices: every ops() block adds one value (x), one node (with one output value)
+    A, B, C = ops("a", 0, 0, 0), ops("b", 0, 1, 0), ops("c", 0, 2, 0)
+    boom = {"t": "try", "body": [W(1, ops("a", 0, 0, 0) + [O(op="raise")])]}
+    return [
+        {"nj": 3, "blocks": pre + [W(1, A), W(0, [W(1, B)])]},                    # alone, then nested (the scenario of q2)
+        {"nj": 3, "blocks": pre + [W(0, [W(1, A)]), W(1, B)]},                    # nested, then alone
+        {"nj": 3, "blocks": pre + [W(0, [W(1, A)]), W(1, [W(0, B)])]},            # roles swapped
+        {"nj": 3, "blocks": pre + [W(0, [W(1, A)]), W(2, [W(1, B)])]},            # under j0, then under j2
+        {"nj": 3, "blocks": pre + [W(1, A), W(0, [W(2, [W(1, B)])]), W(2, [W(1, C)])]},  # three contexts
+        {"nj": 3, "blocks": pre + [boom, W(0, [W(1, B)])]},                       # first use left by an exception
+        {"nj": 3, "blocks": pre + [W(0, [W(1, A), W(1, B)]), W(1, C)]},           # same context twice, then another
+    ]
+
+
+def flat_family_cases() -> list:
+    """Permanent flat families: (a) a journal entered, exited and entered again nested inside another one, by raw
+    __enter__ / __exit__ calls; (b) exits out of order that leave STALE wrappers in the class table, followed by
+    operations of every wrapper kind, by the late exit, and by entering the stale journal again (outside 'properly
+    nested': model `runFlatG` vs code, entries included)."""
+    E, X = (lambda j: {"t": "enter", "j": j}), (lambda j, exc=False: {"t": "exit", "j": j, "exc": exc})
+    P = lambda **kw: {"t": "op", "op": kw}  # noqa: E731
+    mk = [P(op="value", name="x"), P(op="graph", inputs=[0], outputs=[], nodes=[], name="g"), P(op="node", op_type="Relu", inputs=[0])]
+    kinds = [P(op="g_append", g=0, n=0), P(op="n_set", n=0, field="name", s="nn"), P(op="io_append", g=0, which="outputs", v=0),
+             P(op="value", name="y"), P(op="g_sort", g=0)]
+    cases = [
+        {"nj": 3, "evs": mk + [E(1)] + kinds + [X(1), E(0), E(1)] + kinds[1:] + [X(1), X(0)]},
+        {"nj": 3, "evs": mk + [E(0), E(1)] + kinds + [X(1, True), X(0), E(1)] + kinds[1:] + [X(1)]},
+        {"nj": 3, "evs": mk + [E(1), X(1), E(2), E(0), E(1)] + kinds + [X(1), X(0), X(2, True)]},
+    ]
+    for late in (kinds, kinds[:1]):
+        cases += [
+            {"nj": 3, "evs": mk + [E(0), E(1), X(0)] + late + [X(1)] + kinds},                  # stale wrappers of 0 installed after X(1)
+            {"nj": 3, "evs": mk + [E(0), E(1), X(0), X(1)] + late + [E(0)] + kinds + [X(0)]},   # ... and journal 0 entered again on top of them
+            {"nj": 3, "evs": mk + [E(0), E(1), E(2), X(0, True)] + late + [X(2), X(1)] + kinds + [E(2)] + kinds[:2] + [X(2)]},
+        ]
+    return cases
+
+
 def bound_method_stream(ctx) -> None:
     """User code that keeps a bound method across the boundary of a `with journal:` block.  Such calls
     do not go through the class attributes, so they are outside the model (see ASSUMPTIONS): a method
@@ -1950,6 +2134,18 @@ def stale_wrapper_records() -> bool:
     before = len(j.entries)
     m(n)
     return len(j.entries) > before
+
+
+_GUARDED = []
+
+
+def guarded_code() -> bool:
+    """Does /repo have the `journal._active` check (repo commit 1a1144b)?  Probed once per process; selects the model
+    variant (checked: dispatchG / runBlockG / runFlatG / callCapturedG; unchecked: dispatch / runBlock / ...) that
+    EVERY stream is compared with."""
+    if not _GUARDED:
+        _GUARDED.append(not stale_wrapper_records())
+    return _GUARDED[0]
 
 
 def proper_flat(evs: list) -> bool:
@@ -2133,6 +2329,18 @@ class FlatRunner:
             self.tr.end()
 
 
+def flat_reused_elsewhere(evs: list) -> bool:
+    """some journal is (successfully) entered twice with different sets of open journals around it"""
+    open_, seen = [], {}
+    for e in evs:
+        if e["t"] == "enter" and e["j"] not in open_:
+            seen.setdefault(e["j"], set()).add(tuple(open_))
+            open_.append(e["j"])
+        elif e["t"] == "exit" and e["j"] in open_:
+            open_.remove(e["j"])
+    return any(len(v) > 1 for v in seen.values())
+
+
 def proper_prefix(word: list) -> bool:
     """the enter/exit events so far never broke the stack discipline (journals may still be open)"""
     st = []
@@ -2196,6 +2404,25 @@ def _flat_stream(ctx, cases: list, stream: str, guarded: bool) -> None:
                 if entries_real[ji] != exp:
                     ctx.fail(f"{sig}/entries", "journal entries of a properly nested flat history are not exactly the instrumented calls executed while entered",
                              {"case": case, "journal": ji, "real": entries_real[ji][:30], "expected": exp[:30]})
+        elif not proper and not has_cap and nops:
+            # outside 'properly nested': observation only - does every journal still hold exactly the calls completed
+            # while it was entered?  (No when exits crossed: a journal that is entered but whose wrappers were taken out
+            # of the class table by another journal's __exit__ misses calls; what the code does there is the model's
+            # runFlatG and compared below.)
+            as_exp = all(entries_real[ji] == expected_entries(fr.events, fr.owner, ji) for ji in range(case["nj"]))
+            ctx.count(f"flat:improperly-nested:entries-are-the-calls-completed-while-entered={as_exp}")
+        # the invariant of C20_table_wrappers_active evaluated on the real objects after every item: every wrapper layer
+        # installed in the class table was made by a journal whose _active flag is set
+        real_ta = [all(all(0 <= l < len(st_["active"]) and st_["active"][l] for l in x["layers"]) for x in st_["table"]) for st_ in fr.states]
+        if proper and not all(real_ta):
+            ctx.fail(f"{sig}/stale-wrapper-installed", "during a properly nested flat history a wrapper of a journal that is not active is installed in the class table",
+                     {"case": case, "step": real_ta.index(False)})
+        ctx.count(f"table-wrappers-all-active-at-every-step={all(real_ta)}:well_bracketed={proper}")
+        if flat_reused_elsewhere(evs):
+            ctx.count("flat:journal-reused-in-another-nesting-context" + (":well-bracketed" if proper else ""))
+        stale_ops = sum(1 for e, ok in zip(evs, [True] + real_ta[:-1]) if e["t"] == "op" and not ok)
+        if stale_ops:
+            ctx.count("flat:operations-executed-with-a-stale-wrapper-installed", stale_ops)
         for what, key, ok_prefix in fr.after_exit:
             ctx.count(f"captured-inside:records-after-exit:{what}")
             if ok_prefix:
@@ -2208,7 +2435,7 @@ def _flat_stream(ctx, cases: list, stream: str, guarded: bool) -> None:
                "owner": sorted([a, b] for a, b in fr.owner.items()), "evs": [it_ for it_ in fr.items if not (it_["t"] == "callcap" and it_["step"] is None)]}
         impl = {"states": fr.states, "caps": fr.cap_impls, "log": [out_code(o[0], o[1]) for o in fr.outcomes],
                 "entries": entries_real, "proper": proper, "skipped_call": any(it_["t"] == "callcap" and it_["step"] is None for it_ in fr.items),
-                "stale_in_table": (not proper) and nops > 0}
+                "stale_in_table": (not proper) and nops > 0, "table_active": real_ta}
         wrs = []
         for o in fr.reg.objs + fr.fresh_nodes + fr.fresh_vals + [fr.pg, fr.pn, fr.pv]:
             try:
@@ -2240,9 +2467,14 @@ def _flat_stream(ctx, cases: list, stream: str, guarded: bool) -> None:
         if m_log != impl["log"]:
             ctx.disagree("flat history: outcomes: model != implementation", case, m_log, impl["log"])
         m_entries = [[[e[1], e[2].get("weak", -9)] for e in es] for es in ans["entries"]]
-        if guarded and impl["stale_in_table"]:
-            ctx.count("flat:entries-not-compared:guarded-wrappers-in-an-improperly-nested-history")
-        elif m_entries != impl["entries"]:
+        if ans.get("table_active") != impl["table_active"]:
+            ctx.disagree("flat history: TableActive (every installed wrapper belongs to an active journal) after every item: model != implementation",
+                         case, ans.get("table_active"), impl["table_active"])
+        if impl["proper"] and not all(ans.get("table_active") or [True]):
+            ctx.disagree("model: a wrapper of an inactive journal is installed during a well-bracketed word (contradicts C20_table_wrappers_active)", case, ans.get("table_active"), None)
+        if impl["stale_in_table"]:
+            ctx.count(f"flat:improperly-nested-with-operations:entries-compared:{'checked' if guarded else 'unchecked'}-model")
+        if m_entries != impl["entries"]:
             k = next((i for i, (a, b) in enumerate(zip(m_entries, impl["entries"])) if a != b), 0)
             ctx.disagree("flat history: journal entries: model != implementation", {"case": case, "journal": k},
                          str(m_entries[k])[:1200], str(impl["entries"][k])[:1200])
@@ -2531,10 +2763,29 @@ def _probe_slot(R: Real, k: int, fn, with_defaults: bool, graph_arg):
         propagated = False
     except ZeroDivisionError:
         propagated = True
+    # third / fourth run: the journal is NOT active (`journal._active` False, the check of repo commit 1a1144b): the
+    # wrapper must only forward - original once, no details evaluation (setter: no read of the old value), no record
+    new_cells["journal"]._active = False
+    del log[:]
+    n_rec = len(recorded)
+    state["raise"] = False
+    res_g = w(slf, *args)
+    order_g = list(log)
+    del log[:]
+    state["raise"] = True
+    try:
+        w(slf, *args)
+        propagated_g = False
+    except ZeroDivisionError:
+        propagated_g = log == ["orig"]
     first = {}
     for i, e in enumerate(order):
         first.setdefault(e, i)
     return {
+        "guard_forwards": order_g == ["orig"] and len(recorded) == n_rec,
+        "guard_returns_result": res_g is sentinel,
+        "guard_propagates": propagated_g,
+        "guard_order": order_g,
         "order": order,
         "details_before": "details" in first and "orig" in first and first["details"] < first["orig"],
         "record_after": (order.count("record") == 1 and "orig" in first and first["orig"] < first["record"]
@@ -2652,6 +2903,12 @@ def check_slot_table(ctx) -> None:
         if real_flags != model_flags:
             ctx.disagree(f"slot {i} ({m['key']}): order of effects in the wrapper (details / original / record): model != code",
                          "slot-table", model_flags, {**real_flags, "order": p["order"]})
+        if guarded_code():
+            real_g = {x: p[x] for x in ("guard_forwards", "guard_returns_result", "guard_propagates")}
+            model_g = {x: m.get(x) for x in ("guard_forwards", "guard_returns_result", "guard_propagates")}
+            if real_g != model_g:
+                ctx.disagree(f"slot {i} ({m['key']}): the wrapper with its journal NOT active (`journal._active` check): model (runImplGuarded) != code",
+                             "slot-table", model_g, {**real_g, "order": p["guard_order"]})
         if p["operation"] != m["op"]:
             ctx.disagree(f"slot {i} ({m['key']}): operation name recorded", "slot-table", m["op"], p["operation"])
         if a.get("details") != p["details"]:
@@ -2904,6 +3161,131 @@ K_INSTANTIATED = {
 }
 
 
+class RetTracer:
+    """What every OUTERMOST public call hands back to its caller (round 5).  sys.monitoring on the code objects of every
+    member of kernel_ops.API_TABLE that is mapped to a kernel operation (functions, property setters, constructors, the
+    convenience functions) and on the four journaling wrapper functions: the outermost such frame of a call made by
+    user code is what the user calls, its return value (or exception) is what the user gets - whether the member is
+    itself instrumented (`graph.inputs.pop()`: the wrapper's frame is the outermost one) or not
+    (`graph.initializers.pop(key)`, `attributes.setdefault`, `tape.op`: calls that only REACH instrumented code)."""
+
+    _inst = None
+
+    def __init__(self, R: Real):
+        from harness import kernel_ops as K
+        import inspect
+
+        import onnx_ir.convenience as conv
+        from onnx_ir import _tape
+
+        self.R = R
+        mon = sys.monitoring
+        free = [i for i in (3, 5, 2, 1, 0, 4) if mon.get_tool(i) is None]
+        if not free:
+            raise Infra("no free sys.monitoring tool id (RetTracer)")
+        self.TOOL = free[0]
+        mon.use_tool_id(self.TOOL, "irverif-c20-ret")
+        ir = R.ir
+        classes = {
+            "Graph": ir.Graph, "Function": ir.Function, "GraphView": ir.GraphView, "Node": ir.Node, "Value": ir.Value,
+            "GraphInputs": R.gc_.GraphInputs, "GraphOutputs": R.gc_.GraphOutputs, "GraphInitializers": R.gc_.GraphInitializers,
+            "Attributes": R.gc_.Attributes, "Tape": _tape.Tape, "Builder": _tape.Builder,
+        }
+        self.codes: dict = {}
+        self.members: dict = {}  # API_TABLE key -> resolved to a code object?
+        for key, (kind, _detail, _settable) in K.API_TABLE.items():
+            if kind != "model":
+                continue
+            cname, member = key.split(".", 1)
+            fn = None
+            if cname == "convenience":
+                fn = getattr(conv, member, None)
+            elif cname in classes:
+                try:
+                    a = inspect.getattr_static(classes[cname], member)
+                except AttributeError:
+                    a = None
+                if isinstance(a, property):
+                    fn = a.fset
+                elif isinstance(a, (classmethod, staticmethod)):
+                    fn = a.__func__
+                else:
+                    fn = a
+            code = getattr(getattr(fn, "__wrapped__", fn), "__code__", None)
+            self.members[key] = code is not None
+            if code is not None:
+                self.codes.setdefault(code, code.co_qualname)
+        # the 43 instrumented originals too (some are not in the alphabet table: TensorBase / Attr / Function constructors):
+        # inside a journal their wrapper frame is seen, so the un-journaled run must see the original's frame
+        for code in R.code2slot:
+            self.codes.setdefault(code, code.co_qualname)
+        self.wrappers = set(R.wrapper_codes)
+        E = mon.events
+        mon.register_callback(self.TOOL, E.PY_START, self._start)
+        mon.register_callback(self.TOOL, E.PY_RETURN, self._ret)
+        mon.register_callback(self.TOOL, E.PY_UNWIND, self._unwind)
+        for code in list(self.codes) + list(self.wrappers):
+            mon.set_local_events(self.TOOL, code, E.PY_START | E.PY_RETURN)
+        self.active = False
+        self.stack: list = []
+        self.out: list = []
+
+    @classmethod
+    def get(cls, R: Real) -> "RetTracer":
+        if cls._inst is None:
+            cls._inst = RetTracer(R)
+        return cls._inst
+
+    def begin(self) -> None:
+        self.stack, self.out, self.active = [], [], True
+        sys.monitoring.set_events(self.TOOL, sys.monitoring.events.PY_UNWIND)
+
+    def end(self) -> list:
+        self.active = False
+        sys.monitoring.set_events(self.TOOL, 0)
+        out, self.out, self.stack = self.out, [], []
+        return out
+
+    def _start(self, code, _off):
+        if not self.active:
+            return
+        if code in self.wrappers:
+            loc = sys._getframe(1).f_locals
+            fn = loc.get("original_method") or loc.get("original_setter") or loc.get("original_init")
+            while fn is not None and getattr(fn, "__code__", None) in self.wrappers and hasattr(fn, "__wrapped__"):
+                fn = fn.__wrapped__
+            key = getattr(getattr(fn, "__code__", None), "co_qualname", "?")
+        else:
+            key = self.codes[code]
+        self.stack.append(key)
+
+    def _ret(self, code, _off, rv):
+        if not self.active or not self.stack:
+            return
+        key = self.stack.pop()
+        if not self.stack:
+            self.out.append((key, "ret", rv))
+
+    def _unwind(self, code, _off, exc):
+        if not self.active or not self.stack or (code not in self.codes and code not in self.wrappers):
+            return
+        key = self.stack.pop()
+        if not self.stack:
+            self.out.append((key, "raise", type(exc).__name__))
+
+
+def _k_canon_ret(real, R: Real, v, depth: int = 0):
+    """a returned Python value, canonical: None / bool / int / str as they are, IR objects by kernel identity, sequences
+    elementwise, anything else by its type name"""
+    if v is None or isinstance(v, (bool, int, str)):
+        return v
+    if isinstance(v, R.ir_types) or isinstance(v, (R.core.Graph, R.core.Function)):
+        return {"ref": _k_enc(real, v, R)}
+    if isinstance(v, (list, tuple)) and depth < 3:
+        return [_k_canon_ret(real, R, x, depth + 1) for x in v]
+    return "<" + type(v).__name__ + ">"
+
+
 def _kreal_class():
     from harness import kernel_ops as K
 
@@ -3028,6 +3410,8 @@ def _k_run(R: Real, ops: list, journals_at, nest: int):
     tr = Tracer.get(R)
     journals = [R.J.Journal() for _ in range(nest)]
     trees, outcomes, mops, rets = [], [], [], []
+    pub: list = []  # per call: what every outermost public call handed back (RetTracer)
+    rt = RetTracer.get(R)
     entries: list = [[] for _ in range(nest)]
     enc_of: dict = {}
 
@@ -3039,11 +3423,13 @@ def _k_run(R: Real, ops: list, journals_at, nest: int):
         sp = _k_spelling(real, op)
         funcs_before = set(real.funcs)
         tr.begin(reg)
+        rt.begin()
         try:
             o, kind, mop = real.apply(op)
         finally:
             evs = tr.events
             tr.end()
+            raw_pub = rt.end()
         new_attrs = []
         for e in evs:  # the Attr objects built for this call, in creation order
             if e[0] == "start" and e[1] == K_ATTR_SLOT:
@@ -3070,6 +3456,8 @@ def _k_run(R: Real, ops: list, journals_at, nest: int):
         mops.append({**mop, "c20": sp} if sp else mop)
         r = real.last_ret
         rets.append(None if r is None or o != "ok" else {"ref": _k_enc(real, r, R)})
+        pub.append([[key, kind_, _k_canon_ret(real, R, v) if kind_ == "ret" else v] for key, kind_, v in raw_pub])
+        del raw_pub
 
     with contextlib.ExitStack() as st:
         for i, op in enumerate(ops):
@@ -3080,7 +3468,7 @@ def _k_run(R: Real, ops: list, journals_at, nest: int):
         if journals_at >= len(ops):
             for j in journals:
                 st.enter_context(j)
-    return trees, outcomes, mops, real.snapshot(), entries, rets
+    return trees, outcomes, mops, real.snapshot(), entries, rets, pub
 
 
 def kernel_cases(rng, n: int, maxlen: int) -> list:
@@ -3121,17 +3509,24 @@ def kernel_stream(ctx, cases: list, stream: str = "kernel") -> None:
         ops = case["ops"]
         if R.pristine_problems():
             R.repair()
-        p_trees, p_out, p_mops, p_snap, _e, p_rets = _k_run(R, ops, len(ops) + 1, 0)
-        j_trees, j_out, j_mops, j_snap, j_entries, j_rets = _k_run(R, ops, case["from"], case["nest"])
+        p_trees, p_out, p_mops, p_snap, _e, p_rets, p_pub = _k_run(R, ops, len(ops) + 1, 0)
+        j_trees, j_out, j_mops, j_snap, j_entries, j_rets, j_pub = _k_run(R, ops, case["from"], case["nest"])
         left = R.pristine_problems()
         if left:
             R.repair()
-        reqs.append({"m": "journal.kernel", "fuel": 8, "nj": 3, "ops": p_mops, "from": case["from"], "nest": list(range(case["nest"]))})
+        reqs.append({"m": "journal.kernel", "fuel": 8, "nj": 3, "guarded": guarded_code(), "ops": p_mops, "from": case["from"], "nest": list(range(case["nest"]))})
         p_mops_of[id(case)] = p_mops
-        reals.append((p_trees, p_out, j_trees, j_out, p_snap == j_snap, j_entries, left, p_mops == j_mops, p_rets, j_rets))
+        reals.append((p_trees, p_out, j_trees, j_out, p_snap == j_snap, j_entries, left, p_mops == j_mops, p_rets, j_rets, p_pub, j_pub))
     answers = lean_batch(reqs)
-    for case, (p_trees, p_out, j_trees, j_out, same_snap, j_entries, left, same_mops, p_rets, j_rets), ans in zip(cases, reals, answers):
+    for case, (p_trees, p_out, j_trees, j_out, same_snap, j_entries, left, same_mops, p_rets, j_rets, p_pub, j_pub), ans in zip(cases, reals, answers):
         ops = case["ops"]
+        # every outermost public call of the history (kernel_ops.API_TABLE members): what it handed back to the caller
+        for i, calls in enumerate(j_pub):
+            if i >= case["from"] and case["nest"] > 0:
+                for key, kind_, v in calls:
+                    ctx.count(f"public-call-inside-journal={key}")
+                    if kind_ == "ret" and v is not None:
+                        ctx.count(f"public-call-returns-a-value-inside-journal={key}")
         ctx.case(["kernel", case], nontrivial=len(ops) > 0, stream=stream, sample=case if len(ops) <= 4 else None,
                  kernel_len=min(len(ops) // 4 * 4, 32), nest=case["nest"])
         for op, o in zip(ops, p_out):
@@ -3158,6 +3553,12 @@ def kernel_stream(ctx, cases: list, stream: str = "kernel") -> None:
             continue
         if p_rets != j_rets:
             ctx.fail(f"{sig}/transparent-result", "a call returns another value inside journals", {"case": case, "plain": p_rets, "journaled": j_rets})
+            continue
+        if p_pub != j_pub:
+            i = next((i for i, (a, b) in enumerate(zip(p_pub, j_pub)) if a != b), 0)
+            key = next((a[0] for a, b in zip(p_pub[i], j_pub[i]) if a != b), p_pub[i][0][0] if p_pub[i] else "?")
+            ctx.fail(f"{sig}/transparent-public-result:{key}", "a public call (instrumented or not) hands another value / exception back to its caller inside journals",
+                     {"case": case, "call": i, "plain": p_pub[i], "journaled": j_pub[i]})
             continue
         if p_trees != j_trees:
             ctx.fail(f"{sig}/transparent-calls", "the original functions executed (or what they return) differ inside journals", {"case": case})
@@ -3301,6 +3702,8 @@ def run(ctx: Ctx) -> None:
     cov = coverage_case()
     cov1 = {"nj": 1, "blocks": [{"t": "try", "body": [{"t": "with", "j": 0, "body": cov["blocks"][0]["body"][0]["body"] + [{"t": "op", "op": {"op": "raise"}}]}]}]}
     process_cases(ctx, [cov, cov1], "coverage")
+    process_cases(ctx, empty_owner_cases(), "empty-owner")
+    process_cases(ctx, reuse_cases(), "journal-reuse")
     details_stream(ctx)
     bound_method_stream(ctx)
     exit_fault_stream(ctx)
@@ -3314,6 +3717,7 @@ def run(ctx: Ctx) -> None:
         ctx.merge(p)
     ctx.exhaustive_scopes.append(f"all flat words of length <= {fl} over {{enter 0, enter 1, exit 0, exit 1 with an exception propagating, an operation}}")
     flat_stream(ctx, flat_captured_cases(), "flat-captured", guarded)
+    flat_stream(ctx, flat_family_cases(), "flat-family", guarded)
     ctx.exhaustive_scopes.append("6 capturable callables (instance / class level: method, constructor, property setter, container method) x 5 capture/call placements")
     ctx.exhaustive_scopes.append("nesting depth 0-3 x exception thrown at no level / each level x thrown by user code / by a rejected IR operation")
     # random histories, sharded
@@ -3337,6 +3741,29 @@ def run(ctx: Ctx) -> None:
     ctx.extra["property_objects_recreated_by_restore"] = f"{R.property_objects_recreated()} of {len(R.props)} (fget/fset/fdel/doc identical; see assumptions)"
     if low:
         raise Infra(f"coverage floor not met (each of the 43 slots must run >= {FLOOR} times inside a journal): {low}")
+    # permanent families (seeded C20-q1 / C20-q2): floors on the generator dimensions
+    low_e = {k: ctx.dist.get("empty-owner-op=" + k, 0) for k in EMPTY_OWNER_SLOTS if ctx.dist.get("empty-owner-op=" + k, 0) < FLOOR}
+    floors = {"journal-reused-in-another-nesting-context": REUSE_FLOOR, "flat:journal-reused-in-another-nesting-context:well-bracketed": 3,
+              "flat:operations-executed-with-a-stale-wrapper-installed": 10}
+    low_f = {k: ctx.dist.get(k, 0) for k, n in floors.items() if ctx.dist.get(k, 0) < n}
+    ctx.extra["family_floors"] = {"empty-owner-op=<each of the 10 container slots>": FLOOR, **floors}
+    # round 5: what every outermost PUBLIC call hands back, inside vs outside journals (kernel stream, RetTracer)
+    seen_pub = {k.split("=", 1)[1]: v for k, v in ctx.dist.items() if k.startswith("public-call-inside-journal=")}
+    valued = ["_GraphIO.pop", "MutableMapping.pop", "MutableMapping.popitem", "MutableMapping.setdefault", "Tape.op",
+              "Tape.op_multi_out", "Tape.initializer", "Builder.__getattr__"]
+    low_v = {k: ctx.dist.get("public-call-returns-a-value-inside-journal=" + k, 0) for k in valued
+             if ctx.dist.get("public-call-returns-a-value-inside-journal=" + k, 0) < FLOOR}
+    rt = RetTracer.get(R)
+    ctx.extra["public_calls_compared"] = {
+        "distinct_public_callables_called_inside_a_journal": len(seen_pub),
+        "alphabet_members_monitored": sorted(k for k, ok in rt.members.items() if ok),
+        "alphabet_members_without_a_python_function": sorted(k for k, ok in rt.members.items() if not ok),
+        "floor": f"each of {valued} returns a value inside a journal >= {FLOOR} times; >= 45 distinct public callables",
+    }
+    if low_v or len(seen_pub) < 45:
+        raise Infra(f"public-call floor not met: value-returning calls inside a journal {low_v}; distinct public callables {len(seen_pub)} (< 45)")
+    if low_e or low_f:
+        raise Infra(f"family floor not met: container operations on a graph / function with zero nodes inside a journal {low_e}; {low_f}")
 
 
 def replay(ctx: Ctx, obj: dict) -> None:
